@@ -1412,9 +1412,41 @@ fn parse_vars(exprs: &[&Vec<SExpr>], _lsp_hints: &mut LspHints) -> Result<HashMa
             if vars.insert(var_name.into(), var_expr).is_some() {
                 bail_expr!(var_name_expr, "duplicate variable name: {}", var_name);
             }
+            // Reject reference cycles such as `(defvar a $a)`, `(defvar a $b b $a)` or
+            // `(defvar a ($a))`: resolving such a variable would recurse without bound.
+            // A cycle is complete when its last member is defined, so checking the new
+            // variable against everything defined so far is sufficient.
+            let mut frontier = vec![];
+            collect_var_refs(&vars[var_name], &vars, &mut frontier);
+            let mut seen: Vec<&str> = vec![];
+            while let Some(n) = frontier.pop() {
+                if n == var_name {
+                    bail_expr!(
+                        var_name_expr,
+                        "variable {var_name} is defined in terms of itself"
+                    );
+                }
+                if !seen.contains(&n) {
+                    seen.push(n);
+                    collect_var_refs(&vars[n], &vars, &mut frontier);
+                }
+            }
         }
     }
     Ok(vars)
+}
+
+fn collect_var_refs<'a>(e: &'a SExpr, vars: &HashMap<String, SExpr>, out: &mut Vec<&'a str>) {
+    match e {
+        SExpr::Atom(a) => {
+            if let Some(n) = a.t.strip_prefix('$') {
+                if vars.contains_key(n) {
+                    out.push(n);
+                }
+            }
+        }
+        SExpr::List(l) => l.t.iter().for_each(|x| collect_var_refs(x, vars, out)),
+    }
 }
 
 fn parse_list_var(expr: &Spanned<Vec<SExpr>>, vars: &HashMap<String, SExpr>) -> SExpr {
